@@ -210,6 +210,45 @@ theorem errno_is_one_thread_local_variable (σ : State) (tr : List (Tid × Ev)) 
   rw [(noninterference σ tr t).1, one_variable 0 (σ t) _ hwf]
   simp [liveOf]
 
+/-! ### tie to the current source (`Generated/ErrnoSteps.lean`, re-extracted on every run) -/
+
+/-- **The step definitions of the model are what the code does**: running the
+micro-steps extracted from `save_errno_only`, `restore_errno_only`, `b_get_errno` and
+`b_set_errno` gives exactly `stepT` for the corresponding events; the wrappers around
+the C call (`cdata_call`, the generated API wrapper through `_cffi_exports`) are
+restore · C · save and those around the Python call (`invoke_callback`,
+`cffi_call_python`) are save · PY · restore, which is how a call / a callback is
+spelled as events (`callEnter … callExit`, `cbEnter … cbExit`); `b_set_errno` rejects
+exactly `ival < INT_MIN || ival > INT_MAX`. -/
+theorem steps_are_source :
+    (∀ s e a, runSite Generated.ErrnoSteps.saveOnly ⟨s, e, a⟩ = some ⟨(stepT s .callExit).1, e, a⟩
+      ∧ (stepT s .cbEnter).1 = (stepT s .callExit).1)
+    ∧ (∀ s e a, runSite Generated.ErrnoSteps.restoreOnly ⟨s, e, a⟩ = some ⟨(stepT s .callEnter).1, e, a⟩
+      ∧ (stepT s .cbExit).1 = (stepT s .callEnter).1)
+    ∧ (∀ s e a, ∃ v, runSite Generated.ErrnoSteps.getErrno ⟨s, e, a⟩ = some ⟨(stepT s .pyGet).1, v, a⟩
+      ∧ (stepT s .pyGet).2 = .val v)
+    ∧ (∀ s e v, INT_MIN ≤ v ∧ v ≤ INT_MAX →
+        runSite Generated.ErrnoSteps.setErrno ⟨s, e, v⟩ = some ⟨(stepT s (.pySet v)).1, e, v⟩)
+    ∧ Generated.ErrnoSteps.setErrnoRange = "ival < INT_MIN || ival > INT_MAX"
+    ∧ Generated.ErrnoSteps.cdataCall = ["restore", "C", "save"]
+    ∧ Generated.ErrnoSteps.apiWrapper = ["restore", "C", "save"]
+    ∧ (Generated.ErrnoSteps.apiRestore, Generated.ErrnoSteps.apiSave) = ("restore_errno", "save_errno")
+    ∧ Generated.ErrnoSteps.invokeCallback = ["save", "PY", "restore"]
+    ∧ Generated.ErrnoSteps.callPython = ["save", "PY", "restore"]
+    ∧ (Generated.ErrnoSteps.saveMacro, Generated.ErrnoSteps.restoreMacro) = ("save_errno_only", "restore_errno_only")
+    ∧ Generated.ErrnoSteps.saveOnlyFallback
+        = ["int saved = errno", "struct cffi_tls_s *tls = get_cffi_tls()", "if (tls != NULL) tls->saved_errno = saved"]
+    ∧ Generated.ErrnoSteps.restoreOnlyFallback
+        = ["struct cffi_tls_s *tls = get_cffi_tls()", "if (tls != NULL) errno = tls->saved_errno"] := by
+  refine ⟨?_, ?_, ?_, ?_, by decide, by decide, by decide, by decide, by decide, by decide, by decide, by decide, by decide⟩
+  · intro s e a; exact ⟨rfl, rfl⟩
+  · intro s e a; exact ⟨rfl, rfl⟩
+  · intro s e a; exact ⟨s.saved, rfl, rfl⟩
+  · intro s e v hv
+    have hno : ¬ (v < INT_MIN ∨ v > INT_MAX) := by omega
+    simp only [stepT, hno, if_false]
+    rfl
+
 /-! ### non-vacuity -/
 
 /-- Two threads interleaved: thread 0 sets 5, calls a function that reads errno,
